@@ -77,14 +77,6 @@ def preflight(prop, tier):
     res['info']['sql_strings_in_source'] = len(stmts)
     res['info']['sql_strings_unparsed'] = bad
     res['info']['function_hashes'] = L.hashes
-    try:
-        from symdc import validate
-        v = validate.run(L, seed=int(os.environ.get('VERIF_SEED', '0')), n=40 if tier == 'quick' else 200)
-        res['info']['model_validation'] = v
-        if v['disagreements']:
-            res['errors'].append('model validation: the SQL model disagrees with sqlite3 on %d cases, e.g. %s' % (len(v['disagreements']), v['disagreements'][0]))
-    except ImportError:
-        res['info']['model_validation'] = 'not built'
     return res
 
 
